@@ -865,11 +865,20 @@ func runChain(it planItem, emit func(event) error) error {
 		}
 		return ""
 	}
+	dead := false
 	rec := func(slot uint64) error {
 		ev, err := recordState(spec, it.P, st, epc, it.Chain, "chain", boundaryAt(slot), first)
 		first = false
 		if err != nil {
 			return err
+		}
+		// a chain whose validators have all exited (ejections, no blocks) by the next epoch is dying: the
+		// specification's selections are undefined without an active validator (assert len(indices) > 0,
+		// i % 0); such states are not recorded and the chain ends here
+		cur := slot / spe
+		if ev.Ev == "State" && (len(activeAt(ev.Vals, cur)) == 0 || len(activeAt(ev.Vals, cur+1)) == 0) {
+			dead = true
+			return nil
 		}
 		return emit(ev)
 	}
@@ -890,6 +899,9 @@ func runChain(it planItem, emit func(event) error) error {
 		if slot%spe == 0 || slot%spe == midPick {
 			if err := rec(slot); err != nil {
 				return err
+			}
+			if dead {
+				return nil
 			}
 		}
 	}
